@@ -200,7 +200,7 @@ def _validate_batch(traces):
     d = vlib.scratch('c11tv')
     try:
         p = os.path.join(d, 'traces.json')
-        vlib.write_json(p, [{k: v for k, v in t.items() if k not in ('setting', 'source')} for t in traces])
+        vlib.write_json(p, [{k: v for k, v in t.items() if k not in ('setting', 'source', 'label')} for t in traces])
         res = run_tlc('T_Writer', 'SPECIFICATION Spec\nINVARIANT Report\n', env={'TRACE_FILE': p}, workers=1, timeout=1500, heap='3g')
         if res.error:
             raise vlib.MachineryError('T_Writer: ' + res.error)
@@ -241,14 +241,17 @@ def validate(chk, traces, label):
         for d in r['drift'][:3]:
             chk.extra.setdefault('spec_drift', [])
             if len(chk.extra['spec_drift']) < 10:
-                chk.extra['spec_drift'].append({'source': label, 'history': shape(byid[d[0]]['hist']), 'step': d[1]})
+                chk.extra['spec_drift'].append({'source': byid[d[0]].get('label') or label, 'history': shape(byid[d[0]]['hist']), 'step': d[1]})
     chk.add_tlc(tot, 'T_Writer ' + label)
     chk.add_traces(len(traces))
     chk.add_eval(sum(len(t['hist']) + 1 for t in traces))
+    last = {}
     for t in traces:
-        chk.note_distinct(label + shape(t['hist']) + str(t['setting']) + str(t['source']))
-    chk.sample({'source': label, 'writes': shape(traces[-1]['hist']), 'segments_parsed_with': traces[-1]['source'], 'writer_setting': traces[-1]['setting'],
-                'stream_after_close': shape(traces[-1]['final'])})
+        lab = t.get('label') or label       # several sources may share one round of TLC batches
+        chk.note_distinct(lab + shape(t['hist']) + str(t['setting']) + str(t['source']))
+        last[lab] = t
+    for lab, t in last.items():
+        chk.sample({'source': lab, 'writes': shape(t['hist']), 'segments_parsed_with': t['source'], 'writer_setting': t['setting'], 'stream_after_close': shape(t['final'])})
 
 
 def fixture_segments(segs, src):
@@ -395,10 +398,14 @@ def run(tier, replay=None):
     hs = random_hists(rnd, 400 if q else 6000, 18 if q else 40)
     traces = [t for r in vlib.parallel_map(_run_batch, [(tid + i, b) for i, b in zip(range(0, len(hs), 500), vlib.chunked(hs, 500))]) for t in r]
     tid += len(hs)
-    validate(chk, traces, 'random-deep')
     ftr, skipped = fixtures_traces(tid)
     chk.extra['fixture_runs_skipped_data_contains_delimiter'] = skipped
-    validate(chk, ftr, 'fixtures reader->writer')
+    for t in traces:
+        t['label'] = 'random-deep'
+    for t in ftr:
+        t['label'] = 'fixtures reader->writer'
+    chk.extra['traces_by_source'] = {'random-deep': len(traces), 'fixtures reader->writer': len(ftr)}
+    validate(chk, traces + ftr, 'random-deep + fixtures reader->writer')
     chk.assumptions = ['well-nested = a header only directly inside its enclosing level, a trailer only while its level is open (inner levels may be open)',
                        'reuse of a control number supplied by the caller is copied, so reader errors 025/6/23 on the output are not attributed to the writer',
                        'the 837 LX renumbering option of the writer is off (default)',
